@@ -188,12 +188,21 @@ func stackQuiet() bool {
 			first = false
 			continue
 		}
-		if strings.Contains(hdr, "[runnable") || strings.Contains(hdr, "[running") || strings.Contains(hdr, "[syscall") {
+		if strings.Contains(hdr, "[runnable") || strings.Contains(hdr, "[running") || strings.Contains(hdr, "[syscall") || strings.Contains(hdr, "[GC assist") {
+			if len(mismatchSamples) < 8 {
+				lines := strings.Split(blk, "\n")
+				if len(lines) > 7 {
+					lines = lines[:7]
+				}
+				mismatchSamples = append(mismatchSamples, strings.Join(lines, " | "))
+			}
 			return false
 		}
 	}
 	return true
 }
+
+var mismatchSamples []string
 
 // ---------- virtual timers ----------
 
@@ -458,6 +467,16 @@ const maxExecWall = 500 * time.Millisecond
 
 func (w *world) tooSlow() bool { return time.Since(w.born) > maxExecWall }
 
+// noDeadlineConn drops I/O deadlines. gRPC arms a 1 s read and a 10 s write deadline when it closes
+// a client transport (a safety net for peers that do not react; the in-memory pipe is closed right
+// after); bufconn implements deadlines with real time.AfterFunc timers, which would keep every closed
+// world alive for 10 s and fire inside later executions of the same process.
+type noDeadlineConn struct{ net.Conn }
+
+func (noDeadlineConn) SetDeadline(time.Time) error      { return nil }
+func (noDeadlineConn) SetReadDeadline(time.Time) error  { return nil }
+func (noDeadlineConn) SetWriteDeadline(time.Time) error { return nil }
+
 func newWorld(cfg Config) *world {
 	w := &world{cfg: cfg, srv: &server{}, ctl: &vctl{timers: map[*vtimer]struct{}{}}, born: time.Now()}
 	w.ctx, w.stop = context.WithCancel(context.Background())
@@ -466,14 +485,20 @@ func newWorld(cfg Config) *world {
 	vctx.SetStarter(func(d time.Duration, fire func()) func() bool {
 		return ctl.StartTimer(d, func(time.Time) { fire() }).Stop
 	})
-	w.lis = bufconn.Listen(1 << 20)
+	w.lis = bufconn.Listen(32 << 10) // small: gRPC keeps a closed pipe alive for up to 10 s through its deadline timers
 	w.gs = grpc.NewServer()
 	tikvpb.RegisterTikvServer(w.gs, w.srv)
 	lis := w.lis
 	gs := w.gs
 	go func() { _ = gs.Serve(lis) }()
 	w.cli = client.NewRPCClient(client.WithGRPCDialOptions(
-		grpc.WithContextDialer(func(ctx context.Context, _ string) (net.Conn, error) { return lis.DialContext(ctx) }),
+		grpc.WithContextDialer(func(ctx context.Context, _ string) (net.Conn, error) {
+			c, err := lis.DialContext(ctx)
+			if err != nil {
+				return nil, err
+			}
+			return noDeadlineConn{c}, nil
+		}),
 	))
 	for i := 0; i < cfg.Callers; i++ {
 		w.callers = append(w.callers, &caller{idx: i, timeout: callerTimeout(i)})
